@@ -1,17 +1,21 @@
 #!/bin/bash
 # False-alarm test: applies each behaviour-preserving change to /repo (always reverting), runs the
 # repository's suite and every registered check (quick tier), and lists anything that is not exit 0.
-# Usage: tools/run-refactors.sh <out.md> <patch>...
+# Usage: tools/run-refactors.sh <out.md> [--checks "C01 .."] [--no-suite] <patch>...   (--no-suite: the suite result
+# of a refactor does not depend on /verif and was established when the refactor was filed)
 set -u
 cd /verif || exit 2
 out="$1"; shift
-checks=$(python3 -c "import json;print(' '.join(c['property_id'] for c in json.load(open('/verif/MANIFEST.json'))['checks']))")
+checks=""; nosuite=0
+if [ "${1:-}" = "--checks" ]; then checks="$2"; shift 2; fi
+if [ "${1:-}" = "--no-suite" ]; then nosuite=1; shift; fi
+[ -z "$checks" ] && checks=$(python3 -c "import json;print(' '.join(c['property_id'] for c in json.load(open('/verif/MANIFEST.json'))['checks']))")
 [ -n "$(git -C /repo status --porcelain --untracked-files=no)" ] && { echo "/repo is dirty"; exit 2; }
 echo "| behaviour-preserving change | repo suite | checks that did not exit 0 |" > "$out"; echo "|---|---|---|" >> "$out"
 for patch in "$@"; do
   name=$(basename "$patch" .diff)
   git -C /repo apply "$(realpath "$patch")" 2>/dev/null || { echo "| $name | patch does not apply | |" >> "$out"; continue; }
-  if tools/repo-suite.sh /repo >/dev/null 2>&1; then suite="passes"; else suite="FAILS"; fi
+  if [ $nosuite -eq 1 ]; then suite="(not re-run)"; elif tools/repo-suite.sh /repo >/dev/null 2>&1; then suite="passes"; else suite="FAILS"; fi
   bad=""
   for id in $checks; do
     log=$(./check "$id" quick 2>&1); rc=$?
